@@ -748,6 +748,13 @@ func (p *printer) method(sv *spec.Service, m *spec.Method) {
 	}
 	if g := m.GRPC; g != nil {
 		p.open("GRPC(func() {")
+		if len(g.Message) > 0 {
+			p.open("Message(func() {")
+			for _, l := range g.Message {
+				p.ln("Attribute(%s)", loc(l))
+			}
+			p.close("})")
+		}
 		if len(g.Metadata) > 0 {
 			p.open("Metadata(func() {")
 			for _, l := range g.Metadata {
@@ -759,8 +766,15 @@ func (p *printer) method(sv *spec.Service, m *spec.Method) {
 		if code == "" {
 			code = "CodeOK"
 		}
-		if len(g.Headers)+len(g.Trailers) > 0 {
+		if len(g.Headers)+len(g.Trailers)+len(g.RespMessage) > 0 {
 			p.open("Response(%s, func() {", code)
+			if len(g.RespMessage) > 0 {
+				p.open("Message(func() {")
+				for _, l := range g.RespMessage {
+					p.ln("Attribute(%s)", loc(l))
+				}
+				p.close("})")
+			}
 			if len(g.Headers) > 0 {
 				p.open("Headers(func() {")
 				for _, l := range g.Headers {
